@@ -90,17 +90,23 @@ def main():
     res = {"hashseed": os.environ.get("PYTHONHASHSEED"), "canonical": sha(json.dumps(canonical(defn), sort_keys=True))}
     b = build.Built(defn, attach=False)
     cfg = {"common_subexpression_elimination": job["cse"]}
+    # every other child hands its options over as one cpp.Config object and reuses that object for all its
+    # generations (as the repository's own generator scripts do); the rest use fresh dicts
+    cfg_obj = cpp.Config(common_subexpression_elimination=job["cse"]) if job.get("config_object") else None
+
+    def cpp_cfg():
+        return cfg_obj if cfg_obj is not None else dict(cfg)
     d = {}
     # C++ EKF and Model generators
     gen = cpp._generate_ekf_function_bodies(
         header_location="generated/gen.h", namespace="gen", state_model=b.ui_model,
         process_noise=b.process_noise, sensor_models=b.sensor_models, sensor_noises=b.sensor_noises,
-        calibration_map=b.calibration_map, config=dict(cfg))
+        calibration_map=b.calibration_map, config=cpp_cfg())
     d["cpp_ekf_header"] = sha("\n".join(cpp.header_from_ast(generator=gen)))
     d["cpp_ekf_source"] = sha("\n".join(cpp.source_from_ast(generator=gen)))
     gm = cpp._generate_model_function_bodies(
         header_location="generated/gen.h", namespace="gen", symbolic_model=b.ui_model,
-        calibration_map=b.calibration_map, config=dict(cfg))
+        calibration_map=b.calibration_map, config=cpp_cfg())
     d["cpp_model_header"] = sha("\n".join(cpp.header_from_ast(generator=gm)))
     d["cpp_model_source"] = sha("\n".join(cpp.source_from_ast(generator=gm)))
     # files written by the entry point
@@ -110,7 +116,7 @@ def main():
         os.makedirs(os.path.dirname(hdr))
         sys.argv = ["generator.py", "--header", hdr, "--source", src, "--namespace", "gen"]
         cpp.compile_ekf(b.ui_model, b.process_noise, b.sensor_models, b.sensor_noises, b.calibration_map,
-                        config=dict(cfg))
+                        config=cpp_cfg())
         d["cpp_entry_header_file"] = sha(open(hdr).read())
         d["cpp_entry_source_file"] = sha(open(src).read())
     finally:
@@ -125,7 +131,7 @@ def main():
     gen2 = cpp._generate_ekf_function_bodies(
         header_location="generated/gen.h", namespace="gen", state_model=b.ui_model,
         process_noise=b.process_noise, sensor_models=b.sensor_models, sensor_noises=b.sensor_noises,
-        calibration_map=b.calibration_map, config=dict(cfg))
+        calibration_map=b.calibration_map, config=cpp_cfg())
     first_src = "\n".join(cpp.source_from_ast(generator=gen))
     d["cpp_ekf_source_again_same_generator"] = sha(first_src)
     d["cpp_ekf_source_second_generator_source_first"] = sha("\n".join(cpp.source_from_ast(generator=gen2)))
